@@ -276,6 +276,8 @@ def line_for(draw, tree, cfgk):
 PARTS = {"line": check_line}
 
 
+HYP = {"line": (lambda ctx: line_case(), check_line)}
+
 def run(ctx):
     quick = ctx.tier == "quick"
-    ctx.hyp(line_case(), lambda c: check_line(ctx, c), 2500 if quick else 40000, salt=1)
+    ctx.hyp_sharded("line", 8000 if quick else 80000, salt=1)
